@@ -182,6 +182,9 @@ var TrackedKinds = []string{"unstaged-mod", "unstaged-del", "unstaged-mode", "st
 var NewKinds = []string{"staged-add", "untracked"}
 
 func isTrackedKind(k string) bool {
+	if k == "unstaged-to-emptydir" { // not part of TrackedKinds: only used by checks that ask for it
+		return true
+	}
 	for _, x := range TrackedKinds {
 		if x == k {
 			return true
@@ -298,6 +301,11 @@ func Apply(g *gitx.Git, dir string, e Edit) error {
 		return appendFile(full, payload(e, 0))
 	case "unstaged-del":
 		return os.Remove(full)
+	case "unstaged-to-emptydir": // tracked file replaced by an (empty) directory: reading it as a file fails
+		if err := os.Remove(full); err != nil {
+			return err
+		}
+		return os.Mkdir(full, 0o755)
 	case "unstaged-mode":
 		fi, err := os.Lstat(full)
 		if err != nil {
